@@ -112,12 +112,16 @@ structure Layout (d : Dev) : Prop where
   acc : d.fs.accDate = false
   hB : 0x42 ≤ (rootSliceOf d.fs).beginOff
   fatRoot : (fatSliceOf d.fs).beginOff + (fatSliceOf d.fs).size ≤ (rootSliceOf d.fs).beginOff
+  /-- all FAT copies lie before the root region -/
+  fatAllRoot : (fatSliceOf d.fs).beginOff + (fatSliceOf d.fs).mirrors * (fatSliceOf d.fs).size ≤
+    (rootSliceOf d.fs).beginOff
   rootData : d.fs.rootDirSectors ≤ d.fs.firstDataSector
 
 theorem Layout.of_volStep {d d' : Dev} (L : Layout d) (hs : VolStep d d') : Layout d' := by
   have hg := hs.geom
   refine ⟨by rw [hg.fatType]; exact L.fat16, hs.wf L.wf, ?_, by rw [hg.accDate]; exact L.acc,
-    by rw [rootSliceOf_geomEq hg]; exact L.hB, by rw [rootSliceOf_geomEq hg, hg.fatSlice]; exact L.fatRoot, ?_⟩
+    by rw [rootSliceOf_geomEq hg]; exact L.hB, by rw [rootSliceOf_geomEq hg, hg.fatSlice]; exact L.fatRoot,
+    by rw [rootSliceOf_geomEq hg, hg.fatSlice]; exact L.fatAllRoot, ?_⟩
   · have : d'.fs.lfnAlloc = d.fs.lfnAlloc := by rw [hg]
     rw [this]; exact L.alloc
   · have h1 : d'.fs.rootDirSectors = d.fs.rootDirSectors := by rw [hg]
